@@ -69,7 +69,20 @@ def grammar_cases(rng, f):
         s.replace("\x0156=", "\x0155=A\x0155=B\x0156=").encode("latin-1"),
         s.replace("\x0156=", "\x0178=1\x0179=a\x0149=Z\x0156=").encode("latin-1"),
         f + b"1=evil\x01", f[:-1] + b"\x011=evil\x01",
-    ]
+    ] + early_checksum_cases(f)
+
+
+def early_checksum_cases(f):
+    """a body tag replaced by 10: the candidate ends early (and is rejected), the rest of the frame is junk in front of
+    whatever follows (added after seeded change C10-9, a reader that went on only when the buffer started with the marker)"""
+    idx = [m.start() for m in re.finditer(rb"\x01\d+=", f)]
+    out = []
+    for k in (3, len(idx) // 2, len(idx) - 2):
+        if 2 < k < len(idx) - 1:
+            i = idx[k]
+            j = f.index(b"=", i)
+            out.append(f[:i] + b"\x0110" + f[j:])
+    return out
 
 
 def dup_checksum_cases(f):
@@ -239,9 +252,14 @@ def run(ctx):
     # live reader: corrupted / malformed frame followed by valid traffic
     follow = []
     pool = [c for c in cases if c[0] in ("grammar", "multi-corrupt") or c[0].startswith("single")]
+    def layouts(b, tail):
+        return [[b] + tail, [b + tail[0], tail[1]], [b + tail[0] + tail[1]]]      # later reads / one later read / a single read
     for c in rng.sample(pool, min(len(pool), ctx.scale(500, 6000))):
         tail = [rng.choice(corpus_frames) for _ in range(2)]
-        follow.append((c, tail, [c[4]] + tail if rng.random() < 0.5 else [c[4] + tail[0], tail[1]]))
+        follow.append((c, tail, rng.choice(layouts(c[4], tail))))
+    for c in [c for c in cases if c[0] == "grammar"][:ctx.scale(600, 6000)]:
+        tail = [rng.choice(corpus_frames) for _ in range(2)]
+        follow.append((c, tail, layouts(c[4], tail)[2]))                         # every grammar case also in a single read
     mouts = ctx.model.batch([cc.req_reader(ch) for _, _, ch in follow]) if ctx.model else [None] * len(follow)
     for (c, tail, chunks), mo in zip(follow, mouts):
         r = cc.impl_reader(chunks)
